@@ -253,6 +253,13 @@ func MutationMatrix(s *Script, full bool) {
 		{"setdoc", 4, func() *rctypes.Trx {
 			return web3.NewTrxSetDoc(kr.Addr(4), s.nonce(4), s.gas(), s.price(), "name", "url")
 		}},
+		// one of the two strings empty: nothing but the encoding says which field the other one is
+		{"setdoc-nourl", 3, func() *rctypes.Trx {
+			return web3.NewTrxSetDoc(kr.Addr(3), s.nonce(3), s.gas(), s.price(), "only-a-name", "")
+		}},
+		{"setdoc-noname", 3, func() *rctypes.Trx {
+			return web3.NewTrxSetDoc(kr.Addr(3), s.nonce(3), s.gas(), s.price(), "", "only-a-url")
+		}},
 	}
 	for _, b := range bases {
 		if s.R.Dead != "" {
